@@ -82,6 +82,8 @@ impl<'a> Models<'a> {
         self.labels
             .iter()
             .flat_map(|label| {
+                #[cfg(feature = "verif-hooks")]
+                crate::verif::point("models.duration");
                 self.voices
                     .weighted(weights, |voice| {
                         voice.duration_model.get_parameter(2, label)
@@ -103,6 +105,8 @@ impl<'a> Models<'a> {
             .iter()
             .flat_map(|label| {
                 (2..2 + global_metadata.num_states).map(|state_index| {
+                    #[cfg(feature = "verif-hooks")]
+                    crate::verif::point("models.stream");
                     let ModelParameter { parameters, msd } =
                         self.voices.weighted(weights, |voice| {
                             voice.stream_models[stream_index]
@@ -124,6 +128,8 @@ impl<'a> Models<'a> {
         }
 
         let weights = self.weights.get_gv(stream_index);
+        #[cfg(feature = "verif-hooks")]
+        crate::verif::point("models.gv");
         let label = self.labels.first()?;
         let params = self.voices.weighted(weights, |voice| {
             voice.stream_models[stream_index]
